@@ -1,11 +1,16 @@
 use crate::engine::Engine;
 pub mod c01;
+pub mod c02;
+pub mod c03;
+pub mod c04;
 
 pub fn run(id: &str, eng: &mut Engine) -> bool {
     match id {
         "C01" => c01::run(eng),
+        "C02" => c02::run(eng),
+        "C03" => c03::run(eng),
+        "C04" => c04::run(eng),
         _ => return false,
     }
     true
 }
-pub const ALL: &[&str] = &["C01"];
